@@ -6,11 +6,14 @@
    i.e. the oracle [vok]); caret and tilde read the FIELDS of the parsed base, for which the
    model calls its own Version.parse. *)
 From Verif.Base Require Import Bytes GoNum Ord.
+From Verif.Gen Require Operators.
 From Verif.Eco Require Import RangeCore VLayer.
 From Verif.Eco.Npm Require Import Version.
 
 (* operators := []string{">=", "<=", "!=", ">", "<", "="} *)
-Definition npm_ops : list bytes := [$">="; $"<="; $"!="; $">"; $"<"; $"="].
+(* the list is generated from the Go source on every run (tools/gen -> Gen/Operators.v) *)
+Definition npm_ops : list bytes :=
+  Eval cbv delta [Verif.Gen.Operators.npm_ops] in Verif.Gen.Operators.npm_ops.
 
 Definition constraint := (bytes * bytes)%type.
 
